@@ -17,12 +17,13 @@ import exact
 import tlc
 import shiftlib as sl
 import c01
+import common
 from common import pb, u, Time, da, materialise
 
 PID = "C12"
-KINDS = {"f8": np.float64, "f4": np.float32, "c16": np.complex128, "c8": np.complex64, "i2": np.int16, "i1": np.int8}
-REAL = ("f8", "f4", "i2", "i1")
-INTS = ("i2", "i1")       # plain Signal has no dtype contract; result dtype for integer data is not stated: values are judged
+KINDS = sl.DTYPES         # native widths, integer data, non-native byte order, extended precision (plain Signal: no dtype contract)
+REAL = tuple(k for k in KINDS if sl.is_real(k))
+INTS = tuple(k for k in KINDS if k not in sl.NATIVE)     # result dtype not stated for these: values are judged
 EPOCHS = [Time("2020-01-01T00:00:00", format="isot", precision=9), Time(58849.123456789, format="mjd"),
           Time("2031-07-14T23:59:59.999999", format="isot", precision=9)]
 DAY52 = Fraction(1, 2 ** 52)
@@ -32,12 +33,12 @@ SSHS = [(), (2,), (1, 2), (3, 2), (2, 3)]
 def variants(case, idx, rnd, n):
     out = []
     for j in range(n):
-        kind = ["c16", "f8", "c8", "f4", "i2", "c16", "f8", "i1"][(idx + j) % 8]
-        ssh = SSHS[(idx // 8 + j) % len(SSHS)]
-        cls = "BasebandSignal" if kind[0] == "c" and ssh and rnd.random() < 0.4 else "Signal"
+        kind = sl.KIND_CYCLE[(idx + j) % len(sl.KIND_CYCLE)]
+        ssh = SSHS[(idx // len(sl.KIND_CYCLE) + j) % len(SSHS)]
+        cls = "BasebandSignal" if kind in ("c16", "c8") and ssh and rnd.random() < 0.4 else "Signal"
         out.append({"kind": kind, "ssh": list(ssh), "cls": cls, "dask": rnd.random() < 0.2,
                     "rate": rnd.randrange(len(sl.RATES)), "epoch": rnd.randrange(len(EPOCHS)),
-                    "tnum": rnd.choice(["int", "float", "np"]), "nnum": rnd.choice(["int", "np"])})
+                    "tnum": rnd.choice(["int", "float", "np"]), "nnum": rnd.choice(["int", "np"]), "hist": rnd.randrange(3)})
     return out
 
 
@@ -63,7 +64,7 @@ def t_argument(case, var, z):
 
 def replay_case(tab, case, var):
     out = []
-    info = {"ambiguous": 0, "resolution_limited": 0}
+    info = {"ambiguous": 0, "resolution_limited": 0, "history": 0}
     N, tq, n, form, decl = case["len"], case["tq"], case["n"], case["form"], case["decl"]
     ssh = tuple(var["ssh"])
     real = var["kind"] in REAL
@@ -82,11 +83,33 @@ def replay_case(tab, case, var):
             info["ambiguous"] += 1
             return out, info
     m0 = sl.meta_of(z)
+    before = (common.snapshot(t), common.snapshot(narg), common.snapshot(z))
     try:
         y = pb.snippet(z, t, narg)
         raised = None
     except Exception as e:  # noqa
         y, raised = None, e
+    # ---- the caller's objects still denote what the caller wrote down: nothing passed in is modified ...
+    after = (common.snapshot(t), common.snapshot(narg), common.snapshot(z))
+    for nm, b, a_ in zip(("t", "n", "z"), before, after):
+        dd = common.snap_diff(b, a_)
+        if dd:
+            out.append(("snippet:argument-modified:%s:%s" % (nm, form), "%s modified its argument %s (%s)" % (what, nm, dd)))
+    # ---- ... so the very same objects passed again denote the same request
+    try:
+        yy = pb.snippet(z, t, narg)
+        again = None
+    except Exception as e:  # noqa
+        yy, again = None, e
+    rep = None
+    if (raised is None) != (again is None) or (raised is not None and type(raised) is not type(again)):
+        rep = "first call %s, second call %s" % ("returned" if raised is None else repr(raised), "returned" if again is None else repr(again))
+    elif raised is None:
+        if len(yy) != len(y) or common.snap_diff(common.snapshot(yy.start_time), common.snapshot(y.start_time)) or \
+                not np.array_equal(materialise(yy), materialise(y)):
+            rep = "second call returned another signal"
+    if rep:
+        out.append(("snippet:repeat-call-differs:" + form, "%s with the same argument objects again: %s" % (what, rep)))
     if decl["err"]:
         if raised is None:
             out.append(("snippet:no-refusal:" + refusal_class(case), "%s was expected to raise ValueError, returned %r" % (what, y)))
@@ -147,7 +170,40 @@ def replay_case(tab, case, var):
                         "%s: element %d sample %d = %r, TLC expects %r (tol %.2g)"
                         % (what, j, k, complex(a[k, j]), complex(exp[k]), tol)))
             break
+    out += history(z, case, var, t, narg, what, info)
     return out, info
+
+
+def _same(a, b):
+    try:
+        r = a == b
+        return bool(r.all()) if isinstance(r, np.ndarray) else bool(r)
+    except Exception:  # noqa
+        return repr(a) == repr(b)
+
+
+def history(z, case, var, t, narg, what, info):
+    """same object, later call: after a sanctioned in-place change of z's data, snippet(z, t, n) is what
+    the same request gives on a fresh signal holding the new data"""
+    if var["dask"]:
+        return []
+    g = sl.inplace_update(z, var.get("hist", 0), var["kind"])
+    if g is None:
+        return []
+    try:
+        fresh = sl.fresh_copy(z)
+        tf, _ = t_argument(case, var, fresh)
+        y2, yf = pb.snippet(z, t, narg), pb.snippet(fresh, tf, narg)
+    except Exception as e:  # noqa
+        return [("snippet:raised:" + case["form"], "%s after an in-place update of the data raised %r" % (what, e))]
+    info["history"] = 1
+    a2 = materialise(y2).astype(np.complex128)
+    af = materialise(yf).astype(np.complex128)
+    if a2.shape != af.shape or not np.allclose(a2, af, rtol=0, atol=1e-5 * max(1.0, float(np.abs(materialise(z)).max()))):
+        return [("snippet:stale-after-inplace-update:" + ("whole" if case["tq"] % 4 == 0 else "fractional"),
+                 "%s: after data *= %r in place the same object gives %r..., a fresh signal with the new data %r..."
+                 % (what, g, a2.ravel()[:2].tolist(), af.ravel()[:2].tolist()))]
+    return []
 
 
 def refusal_class(case):
@@ -188,7 +244,7 @@ def run_replay(chk, tab, cases, rnd, limit, nvar):
     chosen = []
     for k in sorted(by, key=str):
         chosen += by[k] if len(by[k]) <= per else rnd.sample(by[k], per)
-    tot = {"ambiguous": 0, "resolution_limited": 0}
+    tot = {"ambiguous": 0, "resolution_limited": 0, "history": 0}
     strata = {}
     shown = 0
     for idx, case in enumerate(chosen):
